@@ -520,7 +520,7 @@ class World(object):
                 n = 0
                 tbl, col = ('scheduled_jobs_v2', 'func_name') if self.sched_kind == 'default' else ('delayed_calls_v2', 'target_method_name')
                 rows = mdb.raw_rows("select id from %s where %s like '%%%s%%'" % (tbl, col, st[1]))
-                for (jid,) in rows[:1]:
+                for (jid,) in (rows if (len(st) > 2 and st[2] == 'all') else rows[:1]):
                     from mistral.db.sqlalchemy import base as db_base
                     import sqlalchemy as sa
                     with db_base.get_engine().begin() as conn:
